@@ -38,14 +38,15 @@ def run(tier, seed):
 
     rep.add_case_results(run_cases([("contracts.exprs", "make_expr", (w,)) for w in ("tables", "evaluate_exp", "precedence", "rewrite-idempotent")] + _ex.shape_specs(tier)), "T1")
     cs = cstruct()
-    cs.load("#define A 8\n#define B 13\n#define u 3\nstruct S { uint8 a; uint32 b; };")
+    cs.load("#define A 8\n#define B 13\n#define u 3\n#define A_B 6\n#define _C 2\nstruct S { uint8 a; uint32 b; };")
     sizeof = lambda n: len(cs.resolve(n))  # noqa: E731
     rnd = random.Random(seed)
-    b = Bounded("expression-grammar-vs-reference", "all operator pairs/triples over a fixed atom alphabet (chains of <= 3 binary operators with unary prefixes and parentheses) + seeded random expressions up to 9 operators")
-    atoms = ["1", "7", "0x10", "010", "0b101", "3u", "5UL", "2ll", "A", "B", "x", "u", "sizeof(S)", "sizeof(uint16)"]
+    b = Bounded("expression-grammar-vs-reference", "all operator pairs/triples over a fixed atom alphabet (chains of <= 3 binary operators with unary prefixes and parentheses; operands up to 2**128; identifiers with underscores) + seeded random expressions up to 9 operators")
+    atoms = ["1", "7", "0x10", "010", "0b101", "3u", "5UL", "2ll", "A", "B", "x", "u", "sizeof(S)", "sizeof(uint16)", "A_B", "_C", "x_1", "y_",
+             "9007199254740993", "0xFFFFFFFFFFFFFFFF"]
     binops = ["*", "/", "%", "+", "-", "<<", ">>", "&", "^", "|"]
     unops = ["", "-", "~", "-~", "~-", "--"]
-    contexts = [{"x": 5}, {"x": 2, "A": 1}, {"x": 9, "u": 4}]
+    contexts = [{"x": 5, "x_1": 3, "y_": 11}, {"x": 2, "A": 1, "x_1": 7, "y_": 1, "_C": 5}, {"x": 9, "u": 4, "x_1": 1, "y_": 2}]
 
     def check(s):
         for ci, c in enumerate(contexts):
@@ -70,7 +71,7 @@ def run(tier, seed):
                 obs = f"{type(ex).__name__}: {ex}"
             b.case((s, ci), obs == (want, want, want), observed=f"{obs} expected {want}", inputs={"expression": s, "context": c})
 
-    small_atoms = ["2", "x", "A", "u", "12"]
+    small_atoms = ["2", "x", "A", "u", "12", "x_1", "_C"]
     for a1, a2 in itertools.product(small_atoms, repeat=2):
         for o in binops:
             for u1, u2 in itertools.product(unops[:4], repeat=2):
@@ -81,6 +82,21 @@ def run(tier, seed):
             check(f"{a1} {o1} {a2} {o2} {a3}")
             check(f"{a1} {o1} ({a2} {o2} {a3})")
             check(f"-{a1} {o1} ~{a2} {o2} -{a3}")
+    # operands beyond 2**53 (no detour through floating point), identifiers with underscores next to every operator
+    for big in ("9007199254740993", "0xFFFFFFFFFFFFFFFF", "18014398509481985", "340282366920938463463374607431768211455"):
+        for sm in ("1", "2", "3", "7", "x", "A_B", "1024"):
+            for o in binops:
+                if o in ("<<", ">>"):
+                    check(f"{big} {o} 3")
+                else:
+                    check(f"{big} {o} {sm}")
+                    check(f"{big} * {sm} {o} {sm}")
+    for name in ("x_1", "y_", "_C", "A_B"):
+        for o in binops:
+            check(f"{name} {o} 2")
+            check(f"{name} {o} -2")
+            check(f"7 {o} {name} - 1")
+            check(f"({name}) {o} {name}")
     if tier == "thorough":
         for o1, o2, o3 in itertools.product(binops, repeat=3):
             check(f"7 {o1} x {o2} 2 {o3} 3")
